@@ -191,17 +191,31 @@ where
                 rx,
                 connector,
                 Some(connection),
+                false,
                 &inner.config,
             );
         }
 
         trace!("checkout interested in pooled connections");
-        inner.waiting.entry(token).or_default().push_back(tx);
+        let connecting = inner.connecting.contains(&token);
+        inner
+            .waiting
+            .entry(token)
+            .or_default()
+            .push_back(Waiter { tx, connecting });
 
-        if inner.connecting.contains(&token) {
+        if connecting {
             trace!("connection in progress elsewhere, will wait");
             connector = None;
-            Checkout::new(token, self.as_ref(), rx, connector, None, &inner.config)
+            Checkout::new(
+                token,
+                self.as_ref(),
+                rx,
+                connector,
+                None,
+                false,
+                &inner.config,
+            )
         } else {
             if multiplex {
                 // Only block new connection attempts if we can multiplex on this one.
@@ -209,7 +223,15 @@ where
                 inner.connecting.insert(token);
             }
             trace!("connecting to host");
-            Checkout::new(token, self.as_ref(), rx, connector, None, &inner.config)
+            Checkout::new(
+                token,
+                self.as_ref(),
+                rx,
+                connector,
+                None,
+                multiplex,
+                &inner.config,
+            )
         }
     }
 }
@@ -300,6 +322,20 @@ where
     }
 }
 
+/// A checkout waiting for a connection to be delivered by the pool.
+#[derive(Debug)]
+struct Waiter<C, B>
+where
+    C: PoolableConnection<B>,
+    B: Send + 'static,
+{
+    tx: Sender<Pooled<C, B>>,
+
+    /// This checkout has no connection attempt of its own: it relies entirely on the
+    /// in-flight attempt that was marked in `connecting` when it arrived.
+    connecting: bool,
+}
+
 #[derive(Debug)]
 pub(in crate::client) struct PoolInner<C, B>
 where
@@ -309,7 +345,7 @@ where
     config: Config,
 
     connecting: HashSet<Token>,
-    waiting: HashMap<Token, VecDeque<Sender<Pooled<C, B>>>>,
+    waiting: HashMap<Token, VecDeque<Waiter<C, B>>>,
 
     idle: HashMap<Token, IdleConnections<C, B>>,
 }
@@ -328,10 +364,19 @@ where
         }
     }
 
+    /// The in-flight connection attempt for this token is over.
+    ///
+    /// Only the checkout which owns the attempt may call this, once it has either registered
+    /// its connection with the pool or given up.
     pub(in crate::client) fn cancel_connection(&mut self, token: Token) {
         let existed = self.connecting.remove(&token);
         if existed {
             trace!("pending connection cancelled");
+            // Checkouts which are still waiting on this attempt will never be served by it;
+            // dropping their senders lets them resolve instead of waiting forever.
+            if let Some(waiters) = self.waiting.get_mut(&token) {
+                waiters.retain(|waiter| !waiter.connecting);
+            }
         }
     }
 }
@@ -356,12 +401,11 @@ where
     B: Send + 'static,
 {
     fn push(&mut self, token: Token, mut connection: C, pool_ref: PoolRef<C, B>) {
-        self.connecting.remove(&token);
-
         if let Some(waiters) = self.waiting.get_mut(&token) {
             trace!(waiters=%waiters.len(), ?token, "walking waiters");
 
             while let Some(waiter) = waiters.pop_front() {
+                let waiter = waiter.tx;
                 if waiter.is_closed() {
                     trace!("skipping closed waiter");
                     continue;
